@@ -23,7 +23,7 @@ import (
 )
 
 const (
-	quickSingles = 340     // classes: all boundary points first, random classes after them
+	quickSingles = 360     // classes: all boundary points first, random classes after them
 	quickIgnore  = 3 * 128 // 3 rich projects x every subset of the 7 kinds
 	quickTotal   = quickSingles + quickIgnore
 	thoroughAll  = 6000 + 9*128 // 6000 classes + 9 rich projects x 128 subsets
@@ -75,17 +75,18 @@ var Check = &run.Check{
 		"parameters 3-7 x {instance, static, abstract, interface abstract, interface default} x {last parameter varargs or not}; non-getter/setter methods 18-22 x {0,3 getters/setters} x {class, abstract class, interface}; " +
 		"{0,1,2,4 getters/setters} x {0,1,2 other methods} x {class, interface} (data class / lazy element and their near misses); top-level ifs 6-10 x {no decoy, ifs nested in loops/try/switch, ifs inside the branches of one top-level if} x {class, interface default}; " +
 		"top-level switches 6-10 x {no decoy, nested switches} x 2 forms; ifs/switches 7|8 x 7|8 in one method; condition height 2-6 lines x {if keyword on the condition's line, alone on the line before} x " +
-		"{top-level in a class, top-level in an interface default method, nested in an if, nested in a loop/try, condition of a while}; every method-level dimension (length, parameters, ifs, switches, condition height) T-2…T+2 once more on an accessor-NAMED ordinary method (getReport(a,b,c,d,e,f), a 31-line setUpEverything()); length / parameters / ifs T-2…T+2 on methods (interface default, static, abstract, generic; class instance, static generic) whose keyword modifiers or own type-parameter list stand on the line above the return type; parameters T-2…T+2 x {class, interface default} with explicitly typed (and inferred) lambdas in the body. (b) random classes: 0-28 methods, every method draws parameters, if/switch counts, condition heights, " +
+		"{top-level in a class, top-level in an interface default method, nested in an if, nested in a loop/try, condition of a while}; else-if ladders at the boundaries (one top-level if with 5-9 else-if branches; 6-10 top-level ifs one of which has else-if branches; an else-if condition of 2-6 lines); every method-level dimension (length, parameters, ifs, switches, condition height) T-2…T+2 once more on an accessor-NAMED ordinary method (getReport(a,b,c,d,e,f), a 31-line setUpEverything()); length / parameters / ifs T-2…T+2 on methods (interface default, static, abstract, generic; class instance, static generic) whose keyword modifiers or own type-parameter list stand on the line above the return type; parameters T-2…T+2 x {class, interface default} with explicitly typed (and inferred) lambdas in the body. (b) random classes: 0-28 methods, every method draws parameters, if/switch counts, condition heights, " +
 		"body length near the thresholds with probability 3/4, plus nested carriers, else-if chains (only far from the threshold), getters/setters, abstract methods, constructors, fields, comments and strings mentioning `if (`/`switch (`. " +
 		"(c) ignore part: rich projects of 14 files in which each of the seven kinds has >= 2 findings with different sizes and a near miss, a third of the method-level findings sit on accessor-named methods, and longParameterList has >= 17 findings spread over 4 files with sizes unrelated to the file names, analysed with every one of the 2^7 subsets of kinds as ignore list (x3 projects quick, x9 thorough). " +
 		"Every case: AnalysisPath + IdentifyBadSmell(nil) vs truth table; IdentifyBadSmell(ignore list) == full report minus the named kinds; SortSmellByType of that list in pipeline order AND in an order shuffled from the case stream: keys, permutation, sized kinds non-increasing. " +
-		"Every Nth case instead through `coca bs -p DIR [-x kinds] [-s type]` reading coca_reporter/bs.json (same oracle). " +
+		"Every Nth case instead through `coca bs -p DIR [-x kinds] [-s type]` reading coca_reporter/bs.json (same oracle), DIR spelled in rotation as abs, abs/, rel, ./rel, rel/, `.`, `..`, dir/sub/.., ../dir (common.SpellRoot); in-process AnalysisPath gets dir, dir/ or dir/zzcwd/.. . " +
 		"non-trivial = at least one planted fact within 2 of a threshold; distinct = hash of (per class: kind, fields, constructors, per method: form, role, parameters, varargs, length, if/switch counts, decoy counts, condition heights; ignore mask; CLI/sort flags)",
 	Assumptions: []string{
 		"every generated file is accepted by coca's own Java parser (rejects are counted as inconclusive)",
 		"`the line the declaration starts on`: keyword modifiers (public/static/default/abstract …) and/or the method's own type-parameter list may stand on the line above the return type - the declaration then starts on that upper line (they are its first tokens); otherwise modifiers, return type and name share a line. Method annotations and Javadoc tags on their own line are not generated (comments before a method end on the previous line)",
 		"lambdas appear only as one-line expression lambdas in local initialisers; their (typed or inferred) parameters are not parameters of the enclosing method",
-		"a top-level if/switch statement is a direct child of the method body's statement list; ifs/switches inside branches of if/else/for/while/do/try/switch/synchronized are nested and must not count. Whether the members of an `else if` chain count is not settled by the statement: chains are generated only in methods where (top-level ifs + else-if members) < 8, with one-line conditions. Labelled ifs and bare blocks are not generated",
+		"a top-level if/switch statement is a direct child of the method body's statement list; ifs/switches inside branches of if/else/for/while/do/try/switch/synchronized are nested and must not count. The `if` of an `else if` is the statement of the else branch of the if before it, hence nested: a ladder `if … else if … else if …` is ONE top-level if statement whatever its length, and the conditions of its else-if branches are not top-level if conditions. Labelled ifs and bare blocks are not generated",
+		"the project directory may be named in every way a user legally can (absolute, with trailing separator, relative, ./relative, `.`, `..` from a sub-directory, dir/sub/.., ../dir from a sibling): the report is the same, with file names resolved from the working directory",
 		"a condition's '(' is on the line of its first token and its ')' on the line of its last token, so its height is the same with or without the parentheses; the `if` keyword may stand alone on the line before (the finding's line is then the condition's line, not the keyword's)",
 		"getter/setter = name `get`/`set` + upper-case letter; other method names never start with get/set (`settle`, `getaway`, `isReady` are not generated, the statement does not say what they are)",
 		"accessor-named ordinary methods (getReport with 6 parameters, a 31-line setUpEverything) are methods: the four method-level kinds are expected for them like for any method; for largeClass/dataClass they count as getters/setters by name, and they are only generated in classes with >= 1 other ordinary method and < 18 ordinary methods, where the class-level verdicts do not depend on that reading",
@@ -130,7 +131,7 @@ func toTruth(p *smellgen.Project) []oracle.SmellClassTruth {
 		for i := range c.Methods {
 			m := &c.Methods[i]
 			mt := oracle.SmellMethodTruth{Name: m.Name, Form: m.Form, GetterSetter: m.GetterSetter(), AccessorNamed: m.AccessorNamed, HeadSplit: m.HeadSplit, HeadFirst: m.HeadFirst, TypedLambdaParams: m.TypedLambdaParams, Params: m.Params, Varargs: m.Varargs, Generic: m.Generic, HasBody: m.HasBody,
-				StartLine: m.StartLine, CloseLine: m.CloseLine, TopIfs: m.TopIfs, TopSwitches: m.TopSwitches, DecoyLines: m.DecoyLines}
+				StartLine: m.StartLine, CloseLine: m.CloseLine, TopIfs: m.TopIfs, TopSwitches: m.TopSwitches, DecoyLines: m.DecoyLines, ElseIfLines: m.ElseIfLines}
 			for _, cd := range m.Conds {
 				mt.Conds = append(mt.Conds, oracle.SmellCondTruth{IfLine: cd.IfLine, StartLine: cd.StartLine, EndLine: cd.EndLine})
 			}
@@ -149,10 +150,12 @@ func fromModels(base string, ms []bs_domain.BadSmellModel) []oracle.SmellFinding
 	return out
 }
 
-func fromJSON(base string, ms []jsonSmell) []oracle.SmellFinding {
+// fromJSON: file names in the report are relative to the command's working directory when the -p argument was
+// relative; they are resolved from there and then taken relative to the project directory.
+func fromJSON(cwd, projDir string, ms []jsonSmell) []oracle.SmellFinding {
 	var out []oracle.SmellFinding
 	for _, m := range ms {
-		out = append(out, oracle.SmellFinding{File: rel(base, m.EntityName), Kind: m.BS, Line: m.Line, Size: m.Size})
+		out = append(out, oracle.SmellFinding{File: rel(projDir, common.AbsFrom(cwd, m.EntityName)), Kind: m.BS, Line: m.Line, Size: m.Size})
 	}
 	return out
 }
@@ -287,6 +290,13 @@ func runCase(c *run.Ctx, o *run.Outcome) {
 			o.Count("decoys/nested_ifs", m.NestedIfs)
 			o.Count("decoys/nested_switches", m.NestedSwitches)
 			o.Count("decoys/else_if_members", m.ElseIfs)
+			if m.ElseIfs > 0 && m.TopIfs < oracle.SmellRepeatedT && m.TopIfs+m.ElseIfs >= oracle.SmellRepeatedT {
+				o.Count("methods_where_top_level_ifs<8_but_with_else_if_branches>=8", 1)
+			}
+			if m.ElseIfs > 0 && m.TopIfs >= oracle.SmellRepeatedT {
+				o.Count("methods_with_>=8_top_level_ifs_and_else_if_branches(size_must_stay_top_level_count)", 1)
+			}
+			o.Count("else_if_conditions_of_4+_lines", m.TallElseIfs)
 			o.Count("decoys/tall_conditions_not_top_level_if", m.TallDecoys)
 			o.Seen("method_forms", m.Form)
 			for _, cd := range m.Conds {
@@ -334,19 +344,21 @@ func runCase(c *run.Ctx, o *run.Outcome) {
 	named := oracle.SmellMaskKinds(mask)
 	witness := map[string]interface{}{"tag": p.Tag, "files": files, "planted": truth, "ignore": named, "expected_full_report": expected}
 	o.Witness = witness
+	sigSuffix := "" // how the project directory was named, when not by its plain absolute path
 	report := func(mm []oracle.SmellMismatch, where string) {
 		for _, m := range mm {
-			o.Violate(m.Sig, "[%s] %s", where, m.Msg)
+			o.Violate(m.Sig+sigSuffix, "[%s] %s", where, m.Msg)
 		}
 	}
 	var shown []oracle.SmellFinding
 
 	if useCLI {
 		o.Count("cli_cases", 1)
-		arg := dir
-		if r.Bool() {
-			arg = "proj"
-		}
+		// the project directory spelled in one of the nine legal ways, rotated over the CLI cases
+		cwd, arg, rootKind := common.SpellRoot(c.Index/cliEvery(c.Tier), dir, c.Scratch())
+		o.Count("cli_root_spelled_"+rootKind, 1)
+		sigSuffix = "@cli-root=" + rootKind
+		witness["cwd"], witness["root_spelling"] = cwd, rootKind
 		args := []string{"bs", "-p", arg}
 		if mask != 0 {
 			perm := r.Perm(len(named))
@@ -363,7 +375,7 @@ func runCase(c *run.Ctx, o *run.Outcome) {
 		}
 		where := "coca " + strings.Join(args, " ")
 		witness["boundary"] = where
-		res := common.RunCLI(c.CocaBin, c.Scratch(), nil, args...)
+		res := common.RunCLI(c.CocaBin, cwd, nil, args...)
 		if res.TimedOut {
 			o.SetInconclusive("cli watchdog")
 			return
@@ -376,7 +388,7 @@ func runCase(c *run.Ctx, o *run.Outcome) {
 			o.Violate("cli-exit", "`%s` exit %d: %s", where, res.ExitCode, firstLine(res.Stderr))
 			return
 		}
-		b, err := ioutil.ReadFile(filepath.Join(c.Scratch(), "coca_reporter", "bs.json"))
+		b, err := ioutil.ReadFile(filepath.Join(cwd, "coca_reporter", "bs.json"))
 		if err != nil {
 			o.Violate("cli-no-output", "`%s` wrote no coca_reporter/bs.json: %v", where, err)
 			return
@@ -390,7 +402,7 @@ func runCase(c *run.Ctx, o *run.Outcome) {
 			}
 			groups := map[string][]oracle.SmellFinding{}
 			for k, v := range js {
-				groups[k] = fromJSON(arg, v)
+				groups[k] = fromJSON(cwd, dir, v)
 			}
 			witness["observed_sorted"] = groups
 			report(oracle.SmellCheckGroups(groups), where)
@@ -403,7 +415,7 @@ func runCase(c *run.Ctx, o *run.Outcome) {
 				o.Violate("cli-json-malformed", "bs.json of `%s` is not a list: %v", where, err)
 				return
 			}
-			observed = fromJSON(arg, js)
+			observed = fromJSON(cwd, dir, js)
 		}
 		witness["observed"] = observed
 		mm, matched, skipped := oracle.SmellCompare(truth, expected, observed, named)
@@ -414,6 +426,19 @@ func runCase(c *run.Ctx, o *run.Outcome) {
 		shown = observed
 	} else {
 		witness["boundary"] = "bs.BadSmellApp.AnalysisPath + IdentifyBadSmell + bs_domain.SortSmellByType"
+		// the same directory named plainly, with a trailing separator, or through an empty sub-directory and `..`
+		inPath := dir
+		switch c.Index % 4 {
+		case 1:
+			inPath = dir + string(filepath.Separator)
+			sigSuffix = "@path=trailing-separator"
+		case 3:
+			os.MkdirAll(filepath.Join(dir, "zzcwd"), 0o755)
+			inPath = dir + string(filepath.Separator) + "zzcwd" + string(filepath.Separator) + ".."
+			sigSuffix = "@path=sub-dotdot"
+		}
+		o.Count("in_process_root_spelled_"+map[int]string{0: "abs", 1: "abs-slash", 2: "abs", 3: "sub-dotdot"}[c.Index%4], 1)
+		witness["analysis_path"] = inPath
 		var full, filtered []bs_domain.BadSmellModel
 		var groups, groupsShuffled map[string][]bs_domain.BadSmellModel
 		var shuffled []bs_domain.BadSmellModel
@@ -437,7 +462,7 @@ func runCase(c *run.Ctx, o *run.Outcome) {
 		witness["ignore_argument"] = ignoreArg
 		panicked, val, site := run.Guard(func() {
 			app := bs.NewBadSmellApp()
-			nodes := app.AnalysisPath(dir)
+			nodes := app.AnalysisPath(inPath)
 			full = app.IdentifyBadSmell(nodes, nil)
 			filtered = app.IdentifyBadSmell(nodes, ignoreArg)
 			groups = bs_domain.SortSmellByType(filtered, sizedKind)
